@@ -286,7 +286,8 @@ def impl_trace(c, ops, workdir):
             continue
         if r is None:
             continue
-        if id(r) not in num:
+        isnew = id(r) not in num
+        if isnew:
             num[id(r)] = len(keep)
             keep.append(r)
         last = r
@@ -302,7 +303,7 @@ def impl_trace(c, ops, workdir):
                     if r is not cached[0]:
                         pred = f'step {step}: cached {dt} array not returned by identity'
                 else:
-                    if any(r is x for x in keep[:-1]) and not (c['kind'] == 'A' and r is own):
+                    if not isnew and not (c['kind'] == 'A' and r is own):
                         pred = f'step {step}: uncached read returned an earlier array object'
                     elif c['kind'] == 'P' and not np.array_equal(r, filevals):
                         pred = f'step {step}: uncached get_fdata does not reflect the file'
@@ -318,7 +319,7 @@ def impl_trace(c, ops, workdir):
                     ref = filevals if c['kind'] == 'P' else own
                     if not np.array_equal(r, ref):
                         pred = f'step {step}: uncached get_data does not reflect the ' + ('file' if c['kind'] == 'P' else 'own array')
-                    elif c['kind'] == 'P' and any(r is x for x in keep[:-1]):
+                    elif c['kind'] == 'P' and not isnew:
                         pred = f'step {step}: uncached get_data returned an earlier array object'
                     elif c['kind'] == 'A' and r is not own:
                         pred = f"step {step}: get_data is not the image's own array"
@@ -329,7 +330,7 @@ def impl_trace(c, ops, workdir):
                 want = ref if k != 'sl' else ref[..., 1]
                 if r.shape != want.shape or not np.array_equal(r, want):
                     pred = f'step {step}: {k} does not reflect the ' + ('file' if c['kind'] == 'P' else 'own array')
-                elif c['kind'] == 'P' and any(r is x for x in keep[:-1]):
+                elif c['kind'] == 'P' and not isnew:
                     pred = f'step {step}: proxy read returned an earlier array object'
                 elif c['kind'] == 'A' and k == 'as' and r is not own:
                     pred = f"step {step}: asarray(dataobj) is not the image's own array"
@@ -415,7 +416,8 @@ def run(chk: Check):
                 ' followed by the observing epilogue rh rs im, for each image configuration (array image int16/'
                 'float32/float64 in C and F layout; proxy image over a NIfTI file of int16/float32/float64 x '
                 'scaled(2,1)/unscaled x mmap on/off x nib.load / explicit ArrayProxy(file, header) construction; '
-                'plus compressed, shape (2,3,1) [index refusal] and truncated-file configurations); random: depth '
+                'plus compressed, shape (2,3,1) [index refusal] and truncated-file configurations; plus the first ten '
+                'ops with legacy get_data(fill/unchanged) on five configurations); random: depth '
                 '5..30 over the alphabet plus ' + ' '.join(EXTRA) + '; a sequence is non-trivial when it returns '
                 'at least one array; distinct by (configuration, sequence)')
     chk.assumptions = ['array values are small integers (|v| < 2^15), exact in int16/float32/float64, so dtype casts '
@@ -458,6 +460,12 @@ def run(chk: Check):
         ci = idx[cfg_name(c)]
         for seq in itertools.product(ALPHA, repeat=d_deep):
             plan.append((ci, list(seq) + EPILOGUE))
+    legacy_cfgs = [A('f8', order='C'), A('i2', order='C'), P('f8', None, True), P('i2', (2, 1), False), P('f4', None, True, ctor='ctor')]
+    for c in legacy_cfgs:     # the legacy get_data cache next to the get_fdata cache
+        ci = idx[cfg_name(c)]
+        for seq in itertools.product(ALPHA[:10] + ['gf', 'gu'], repeat=3 if not thorough else 4):
+            if 'gf' in seq or 'gu' in seq:
+                plan.append((ci, list(seq) + EPILOGUE))
     for c in odd_cfgs + [c for c in arr_cfgs if c['order'] == 'F']:
         ci = idx[cfg_name(c)]
         for seq in itertools.product(ALPHA, repeat=2):
@@ -495,8 +503,7 @@ def run(chk: Check):
 
     # ---- compare
     spec_bad = 0
-    reported = 0
-    suppressed = 0
+    pv, cv, sv = [], [], []      # property violations / correspondence-only / spec-vs-concrete
     for k, (ci, ops) in enumerate(plan):
         c = cfgs[ci]
         itrace, pred = impl[k]
@@ -514,32 +521,32 @@ def run(chk: Check):
         if spec != 'ok':
             spec_bad += 1
             chk.disagreements += 1
-            if reported < 5:
-                reported += 1
-                chk.violation('correspondence', case=case, model_output=mod.get(str(k)), predicate='the extracted abstract '
-                              'specification (sstep o abs) and the extracted concrete model (cstep) disagree: ' + spec,
-                              found_input=False, theorem='C13_refines_doc_model (runtime cross-check)')
+            sv.append((case, mod.get(str(k)), spec))
         if itrace.startswith('HARNESS-ERROR'):
             chk.violation('harness_error', case=case, predicate=itrace, found_input=False)
             continue
-        if pred is not None:
-            if known_signature(c, ops, pred):
-                pass
-            elif reported < 5:
-                reported += 1
-                chk.violation('property_violation', case=case, impl_output=itrace, model_output=mtrace, predicate=pred)
-            else:
-                suppressed += 1
+        if pred is not None and not known_signature(c, ops, pred):
+            pv.append((case, itrace, mtrace, pred))
         if itrace != mtrace:
             chk.disagreements += 1
-            if pred is None and reported < 5:
-                reported += 1
-                chk.violation('correspondence', case=case, model_output=mtrace, impl_output=itrace,
-                              predicate='model and implementation traces differ; the direct property predicate '
-                              'holds on this case', found_input=False,
-                              theorem='correspondence C13/Model.v <-> nibabel/dataobj_images.py, arrayproxy.py')
-            elif pred is None:
-                suppressed += 1
+            if pred is None:
+                cv.append((case, itrace, mtrace))
+    pv.sort(key=lambda v: len(v[0]['ops']))      # shortest failing sequences first
+    cv.sort(key=lambda v: len(v[0]['ops']))
+    for case, itrace, mtrace, pred in pv[:5]:
+        chk.violation('property_violation', case=case, impl_output=itrace, model_output=mtrace, predicate=pred)
+    for case, itrace, mtrace in cv[:max(1, 5 - len(pv))] if cv else []:
+        chk.violation('correspondence', case=case, model_output=mtrace, impl_output=itrace,
+                      predicate='model and implementation traces differ; the direct property predicate '
+                      'holds on this case', found_input=False,
+                      theorem='correspondence C13/Model.v <-> nibabel/dataobj_images.py, arrayproxy.py')
+    for case, line, spec in sv[:2]:
+        chk.violation('correspondence', case=case, model_output=line, predicate='the extracted abstract '
+                      'specification (sstep o abs) and the extracted concrete model (cstep) disagree: ' + spec,
+                      found_input=False, theorem='C13_refines_doc_model (runtime cross-check)')
+    suppressed = max(0, len(pv) - 5) + max(0, len(cv) - max(1, 5 - len(pv))) + max(0, len(sv) - 2)
+    chk.extra['property_violations_found'] = len(pv)
+    chk.extra['correspondence_only_disagreements'] = len(cv)
     chk.extra['spec_runtime_disagreements'] = spec_bad
     chk.extra['violation_reports_suppressed_after_first_5'] = suppressed
     chk.extra['unproved_statements'] = []
